@@ -336,108 +336,131 @@ def mask_case(ty, shape, op, rhs, isa, srckind, noalias=True):
     return Case(cid, 'C18', body, bufs, ens, mode, cfg, requires=req, replay_values=replay)
 
 # ----------------------------------------------------------------------------------------------
+# Families whose overlapping members currently fail on the unchanged tree (recorded in known_findings.txt, each one
+# costs a native replay): fseq1d / fseq2d / fseq1d-expr / fseq-from-seq / fseq-from-it / twice-*-fseq (noalias() is
+# compiled out of the fixed 1-D and 2-D view classes), mask (filter views never look at the flag),
+# whole-{fall,all,fseq}-from-it (the whole-tensor fixed view is the tensor itself and Tensor::noalias() is a no-op).
+# The quick tier keeps a handful of those per ISA; the thorough tier enumerates them like the others.
+# Not in the box (reported, cannot be expressed as a contract): compound / noalias assignment to a dynamic view of a
+# rank-1 or rank-2 TensorMap does not compile; integer unary minus (SIMD) is wrong by itself (C02/C08), so `neg`
+# right-hand sides are only generated for float types.
+# ----------------------------------------------------------------------------------------------
+OVERLAP = lambda t: t[0] in ('partial', 'perm')
+CALM = lambda t: t[0] in ('disjoint', 'same')
+
 def cases(tier, seed):
     rng = random.Random(seed)
-    thorough = tier == 'thorough'
-    T = thorough
+    T = tier == 'thorough'
     out = []
     def ops_for(ty): return INT_OPS if ty is INT else ALL_OPS
     def ftype(): return rng.choice([FLT, DBL])
+    def rhs1(ty): return rng.choice(['v', 'v', 'v+v'] + (['neg'] if ty is not INT else []))
+    def full(d, N): return rsize(*d) == N
     for isa in isas(tier):
-        # ---- rank 1, dynamic seq and fixed fseq views on an owning tensor (1D view classes) -------------------
+        # ---- rank 1: dynamic seq views of an owning tensor (1-D view class) --------------------------------------
         for N in range(2, 10 if not T else 13):
-            for vk, vtxt in (('seq1d', seq_txt), ('fseq1d', fseq_txt)):
-                cnt = (5 if vk == 'seq1d' else 3) if not T else 24
-                for (d, s) in pick_pairs(rng, N, cnt):
-                    if vk == 'fseq1d' and rsize(*d) == N: continue     # fseq covering everything returns the tensor itself: family whole-*
-                    out.append(view_case(vk, INT, (N,), [d], [[s]], rng.choice(INT_OPS), 'v', isa, vtxt))
-                for (d, s) in pick_pairs(rng, N, 1 if not T else 6, want=lambda t: t[0] in ('partial', 'perm')):
-                    if vk == 'fseq1d' and rsize(*d) == N: continue
-                    ty = ftype()
-                    out.append(view_case(vk, ty, (N,), [d], [[s]], rng.choice(ALL_OPS), 'v', isa, vtxt))
-        # all five operators on one fixed overlapping pair per view kind (the test-suite pattern, every ISA width)
-        for N, d, s in ((9, (2, 9, 1), (0, 7, 1)), (9, (0, 7, 1), (2, 9, 1)), (9, (1, 9, 2), (0, 8, 2))):
+            for (d, s) in pick_pairs(rng, N, 4 if not T else 24):
+                out.append(view_case('seq1d', INT, (N,), [d], [[s]], rng.choice(INT_OPS), 'v', isa, seq_txt))
+            for (d, s) in pick_pairs(rng, N, 1 if not T else 6, want=OVERLAP):
+                out.append(view_case('seq1d', ftype(), (N,), [d], [[s]], rng.choice(ALL_OPS), 'v', isa, seq_txt))
+        # ---- rank 1: fixed fseq views (1-D fixed view class) -----------------------------------------------------
+        for N in range(3, 10 if not T else 13):
+            for (d, s) in pick_pairs(rng, N, 1 if not T else 6, want=CALM):
+                if not full(d, N): out.append(view_case('fseq1d', INT, (N,), [d], [[s]], rng.choice(INT_OPS), 'v', isa, fseq_txt))
+            if T:
+                for (d, s) in pick_pairs(rng, N, 8, want=OVERLAP):
+                    if not full(d, N):
+                        ty = INT if rng.random() < 0.75 else ftype()
+                        out.append(view_case('fseq1d', ty, (N,), [d], [[s]], rng.choice(ops_for(ty)), 'v', isa, fseq_txt))
+        if not T:
+            for N in (6, 9):
+                for (d, s) in pick_pairs(rng, N, 1, want=OVERLAP):
+                    if not full(d, N): out.append(view_case('fseq1d', INT, (N,), [d], [[s]], rng.choice(INT_OPS), 'v', isa, fseq_txt))
+        # all five operators on the test-suite patterns (shift right = hazardous in storage order, shift left, strided)
+        pats = [(9, (2, 9, 1), (0, 7, 1)), (9, (0, 7, 1), (2, 9, 1)), (9, (1, 9, 2), (0, 8, 2))]
+        for (N, d, s) in (pats if T else pats[:2]):
             for op in ALL_OPS:
                 for ty in ([FLT] if not T else [FLT, DBL]):
                     out.append(view_case('seq1d', ty, (N,), [d], [[s]], op, 'v', isa, seq_txt))
-                    out.append(view_case('fseq1d', ty, (N,), [d], [[s]], op, 'v', isa, fseq_txt))
+        for (N, d, s) in (pats if T else pats[1:2]):           # quick: the hazard-free direction only
+            for op in ALL_OPS:
+                out.append(view_case('fseq1d', FLT, (N,), [d], [[s]], op, 'v', isa, fseq_txt))
         # right-hand sides that are expressions of one or two overlapping views
         for N in ((5, 8, 9) if not T else range(3, 12)):
-            for rhs in ('neg', 'sum2', 'diff2', 'v+v'):
+            for rhs in ('sum2', 'diff2', 'v+v', 'neg'):
                 for vk, vtxt in (('seq1d', seq_txt), ('fseq1d', fseq_txt)):
-                    for (d, s) in pick_pairs(rng, N, 1 if not T else 3, want=lambda t: t[0] in ('partial', 'perm')):
-                        if vk == 'fseq1d' and rsize(*d) == N: continue
-                        n = rsize(*d)
+                    if vk == 'fseq1d' and not T and not (N == 8 and rhs == 'sum2'): continue
+                    for (d, s) in pick_pairs(rng, N, 1 if not T else 3, want=OVERLAP):
+                        if vk == 'fseq1d' and full(d, N): continue
                         srcs = [[s]]
                         if RHS[rhs][2] == 2:
-                            cands = [r for r in all_ranges(N) if rsize(*r) == n]
-                            srcs.append([rng.choice(cands)])
-                        ty = INT if rng.random() < 0.7 else ftype()
+                            srcs.append([rng.choice([r for r in all_ranges(N) if rsize(*r) == rsize(*d)])])
+                        ty = ftype() if (rhs == 'neg' or rng.random() < 0.25) else INT
                         out.append(view_case(vk + '-expr', ty, (N,), [d], srcs, rng.choice(ops_for(ty)), rhs, isa, vtxt))
-        # mixed view kinds: destination seq, source fseq and the other way round
+        # destination seq / source fseq and the other way round
         for N in ((6, 9) if not T else range(4, 11)):
-            for (d, s) in pick_pairs(rng, N, 2 if not T else 4, want=lambda t: t[0] in ('partial', 'perm')):
-                if rsize(*s) == N or rsize(*d) == N: continue
+            for (d, s) in pick_pairs(rng, N, 2 if not T else 4, want=OVERLAP):
+                if full(s, N) or full(d, N): continue
                 out.append(view_case('seq-from-fseq', INT, (N,), [d], [[s]], rng.choice(INT_OPS), 'v', isa, seq_txt, srctxt=fseq_txt))
-                out.append(view_case('fseq-from-seq', INT, (N,), [d], [[s]], rng.choice(INT_OPS), 'v', isa, fseq_txt, srctxt=seq_txt))
-        # vectorised strided assignment macro
+                if T or N == 9: out.append(view_case('fseq-from-seq', INT, (N,), [d], [[s]], rng.choice(INT_OPS), 'v', isa, fseq_txt, srctxt=seq_txt))
+        # FASTOR_USE_VECTORISED_EXPR_ASSIGN (strided vector paths)
         for N in ((9,) if not T else (5, 9, 12)):
-            for (d, s) in pick_pairs(rng, N, 3 if not T else 8, want=lambda t: t[0] in ('partial', 'perm')):
+            for (d, s) in pick_pairs(rng, N, 3 if not T else 8, want=OVERLAP):
                 out.append(view_case('seq1d', INT, (N,), [d], [[s]], rng.choice(INT_OPS), 'v', isa, seq_txt, macros=('FASTOR_USE_VECTORISED_EXPR_ASSIGN',)))
-        # ---- rank 1 / 2 / 3 through TensorMap (generic n-dimensional view class) ------------------------------
-        for N in ((4, 8, 9) if not T else range(3, 12)):
-            for (d, s) in pick_pairs(rng, N, 2 if not T else 6, want=lambda t: t[0] != 'disjoint'):
-                out.append(view_case('seqnd-map', INT, (N,), [d], [[s]], rng.choice(INT_OPS), rng.choice(['v', 'v', 'neg']), isa, seq_txt, parent='map'))
         # ---- rank 2 -----------------------------------------------------------------------------------------------
         shapes2 = [(2, 3), (3, 4), (4, 5), (3, 9)] if not T else [(2, 2), (2, 3), (3, 3), (3, 4), (4, 4), (4, 5), (5, 4), (3, 9), (2, 17), (5, 6)]
         for shape in shapes2:
-            for vk, vtxt, parent in (('seq2d', seq_txt, 'own'), ('fseq2d', fseq_txt, 'own'), ('seqnd-map', seq_txt, 'map')):
-                cnt = 4 if not T else 16
-                for (dst, src) in pick_pairs_nd(rng, shape, cnt):
-                    if vk == 'fseq2d' and all(rsize(*d) == N for d, N in zip(dst, shape)): continue
-                    ty = INT if rng.random() < 0.75 else ftype()
-                    out.append(view_case(vk, ty, shape, dst, [src], rng.choice(ops_for(ty)), 'v' if rng.random() < 0.8 else 'neg', isa, vtxt, parent=parent))
+            for (dst, src) in pick_pairs_nd(rng, shape, 4 if not T else 16):
+                ty = INT if rng.random() < 0.75 else ftype()
+                out.append(view_case('seq2d', ty, shape, dst, [src], rng.choice(ops_for(ty)), rhs1(ty), isa, seq_txt))
+            for (dst, src) in pick_pairs_nd(rng, shape, 1 if not T else 10):
+                if all(full(d, N) for d, N in zip(dst, shape)): continue
+                ty = INT if rng.random() < 0.75 else ftype()
+                out.append(view_case('fseq2d', ty, shape, dst, [src], rng.choice(ops_for(ty)), rhs1(ty), isa, fseq_txt))
         for op in ALL_OPS:     # the test-suite pattern a(all,seq(2,5)) op= a(all,seq(0,3)) on 3x5
             out.append(view_case('seq2d', FLT, (3, 5), [(0, 3, 1), (2, 5, 1)], [[(0, 3, 1), (0, 3, 1)]], op, 'v', isa, seq_txt))
-            out.append(view_case('fseq2d', FLT, (3, 5), [(0, 3, 1), (2, 5, 1)], [[(0, 3, 1), (0, 3, 1)]], op, 'v', isa, fseq_txt))
-        # ---- rank 3 (generic n-dimensional seq views, fixed n-dimensional views) -------------------------------
+            if T or op == '+=': out.append(view_case('fseq2d', FLT, (3, 5), [(0, 3, 1), (2, 5, 1)], [[(0, 3, 1), (0, 3, 1)]], op, 'v', isa, fseq_txt))
+        # ---- rank 3: generic n-dimensional seq views (owning tensor and TensorMap), n-dimensional fixed views ---
         for shape in ([(2, 3, 4)] if not T else [(2, 3, 4), (3, 2, 5), (2, 2, 9)]):
             for vk, vtxt, parent in (('seqnd', seq_txt, 'own'), ('fseqnd', fseq_txt, 'own'), ('seqnd-map', seq_txt, 'map')):
                 for (dst, src) in pick_pairs_nd(rng, shape, 2 if not T else 10, neg=False):
-                    if vk == 'fseqnd' and all(rsize(*d) == N for d, N in zip(dst, shape)): continue
-                    out.append(view_case(vk, INT, shape, dst, [src], rng.choice(INT_OPS), 'v', isa, vtxt, parent=parent))
+                    if vk == 'fseqnd' and all(full(d, N) for d, N in zip(dst, shape)): continue
+                    op = rng.choice(INT_OPS if parent == 'own' else ['+=', '-='])     # TensorMap: view = view does not compile
+                    out.append(view_case(vk, INT, shape, dst, [src], op, 'v', isa, vtxt, parent=parent))
         # ---- coinciding source and destination, no noalias() --------------------------------------------------
         for N in ((5, 9) if not T else range(2, 12)):
             for vk, vtxt in (('seq1d', seq_txt), ('fseq1d', fseq_txt)):
-                rs = [r for r in all_ranges(N) if rsize(*r) >= 2 and not (vk == 'fseq1d' and rsize(*r) == N)]
+                rs = [r for r in all_ranges(N) if rsize(*r) >= 2 and not (vk == 'fseq1d' and full(r, N))]
                 for r in sample(rng, rs, 2 if not T else 5):
-                    rhs = rng.choice(['v', 'neg', 'v+v'])
                     ty = INT if rng.random() < 0.7 else ftype()
-                    out.append(view_case(vk + '-coincide', ty, (N,), [r], [[r]], rng.choice(ops_for(ty)), rhs, isa, vtxt, noalias=False))
+                    out.append(view_case(vk + '-coincide', ty, (N,), [r], [[r]], rng.choice(ops_for(ty)), rhs1(ty), isa, vtxt, noalias=False))
         for shape in ([(3, 5)] if not T else [(2, 3), (3, 5), (4, 4)]):
             for vk, vtxt in (('seq2d', seq_txt), ('fseq2d', fseq_txt)):
                 for _ in range(2 if not T else 5):
                     dst = [rng.choice([r for r in all_ranges(N, 2) if rsize(*r) >= 2 or N < 3]) for N in shape]
-                    if vk == 'fseq2d' and all(rsize(*d) == N for d, N in zip(dst, shape)): continue
+                    if vk == 'fseq2d' and all(full(d, N) for d, N in zip(dst, shape)): continue
                     ty = INT if rng.random() < 0.7 else ftype()
-                    out.append(view_case(vk + '-coincide', ty, shape, dst, [dst], rng.choice(ops_for(ty)), rng.choice(['v', 'neg', 'v+v']), isa, vtxt, noalias=False))
+                    out.append(view_case(vk + '-coincide', ty, shape, dst, [dst], rng.choice(ops_for(ty)), rhs1(ty), isa, vtxt, noalias=False))
         # ---- the same view object used twice --------------------------------------------------------------------
         for N in ((6, 9) if not T else range(4, 11)):
             for kind in ('remark', 'consumed', 'other'):
                 for vtxt in (seq_txt, fseq_txt):
-                    for (d, s) in pick_pairs(rng, N, 1 if not T else 3, want=lambda t: t[0] in ('partial', 'perm')):
-                        if vtxt is fseq_txt and rsize(*d) == N: continue
+                    if vtxt is fseq_txt and not T and not (N == 9 and kind == 'remark'): continue
+                    for (d, s) in pick_pairs(rng, N, 1 if not T else 3, want=OVERLAP):
+                        if vtxt is fseq_txt and full(d, N): continue
                         ty = INT if rng.random() < 0.75 else ftype()
                         out.append(twice_case(ty, N, d, s, rng.choice(ops_for(ty)), rng.choice(ops_for(ty)), kind, isa, vtxt))
         # ---- index-tensor views: symbolic duplicate-free destination indices, symbolic source indices ---------
-        for (shape, ishape) in ([((6,), (3,)), ((8,), (4,)), ((9,), (5,)), ((3, 4), (2, 2))] if not T else
-                                [((4,), (2,)), ((6,), (3,)), ((8,), (4,)), ((9,), (5,)), ((12,), (4,)), ((16,), (4,)), ((3, 4), (2, 2)), ((3, 5), (2, 3)), ((2, 3, 2), (1, 2, 2))]):
-            for op in INT_OPS:
+        its = [((5,), (2,)), ((6,), (3,)), ((2, 3), (2, 2))] if not T else [((4,), (2,)), ((5,), (2,)), ((6,), (3,)), ((7,), (3,)), ((8,), (4,)), ((2, 3), (2, 2)), ((3, 3), (2, 2)), ((2, 2, 2), (1, 2, 2))]
+        for (shape, ishape) in its:
+            big = prod(shape) >= 8
+            for op in (INT_OPS if not big else ['=']):
                 out.append(itview_case(INT, shape, ishape, op, 'v', isa))
-            ty = ftype()
-            for op in (ALL_OPS if T else sample(rng, ALL_OPS, 2)):
-                out.append(itview_case(ty, shape, ishape, op, 'v', isa))
-            out.append(itview_case(INT, shape, ishape, rng.choice(INT_OPS), 'neg', isa, ity=rng.choice([I64, U64])))
+            if not big:
+                ty = ftype()
+                for op in (ALL_OPS if T else sample(rng, ALL_OPS, 1)):
+                    out.append(itview_case(ty, shape, ishape, op, 'v', isa))
+                out.append(itview_case(INT, shape, ishape, rng.choice(INT_OPS), 'v+v', isa, ity=rng.choice([I64, U64])))
             out.append(itview_case(INT, shape, ishape, rng.choice(INT_OPS), rng.choice(['v', 'v+v']), isa, srckind='self', noalias=False))
             if len(shape) == 1:
                 N = shape[0]; K = ishape[0]
@@ -445,19 +468,29 @@ def cases(tier, seed):
                 for r in sample(rng, rs, 2 if not T else 4):
                     out.append(itview_case(INT, shape, ishape, rng.choice(INT_OPS), 'v', isa, srckind='seq', src_range=r))
                     out.append(seq_from_it_case(INT, N, r, rng.choice(INT_OPS), isa, ity=rng.choice([INT, INT, I64, U64])))
+                if T or N == 6:
+                    r = rng.choice(rs)
                     if K < N: out.append(seq_from_it_case(INT, N, r, rng.choice(INT_OPS), isa, fixed=True))
         # ---- destination = whole tensor spelled as a view ---------------------------------------------------------
-        for shape in ([(5,), (2, 3)] if not T else [(3,), (5,), (8,), (2, 3), (3, 3)]):
-            for sp in ('fall', 'all', 'seq', 'seqlast', 'fseq'):
-                out.append(whole_from_it_case(INT, shape, rng.choice(INT_OPS), isa, sp))
+        if not T:
+            sp = {'sse2': 'fall', 'avx2': 'all', 'avx512': 'fseq'}.get(isa, 'fall')
+            out.append(whole_from_it_case(INT, (5,), rng.choice(['+=', '-=']), isa, sp))
+            out.append(whole_from_it_case(INT, (5,), rng.choice(INT_OPS), isa, rng.choice(['seq', 'seqlast'])))
+        else:
+            for shape in [(3,), (5,), (8,), (2, 3)]:
+                for sp in ('fall', 'all', 'fseq') + (('seq', 'seqlast') if len(shape) == 1 else ()):
+                    for op in INT_OPS:
+                        out.append(whole_from_it_case(INT, shape, op, isa, sp))
         # ---- mask views -----------------------------------------------------------------------------------------------
-        for shape in ([(5,), (9,), (2, 3)] if not T else [(3,), (5,), (9,), (12,), (2, 3), (3, 4), (2, 2, 3)]):
-            for op in INT_OPS:
+        for shape in ([(5,), (2, 3)] if not T else [(3,), (5,), (9,), (12,), (2, 3), (3, 4), (2, 2, 3)]):
+            for op in (INT_OPS if T else [rng.choice(INT_OPS)]):
                 out.append(mask_case(INT, shape, op, 'v', isa, 'it'))
-            out.append(mask_case(ftype(), shape, rng.choice(ALL_OPS), 'v', isa, 'it'))
-            out.append(mask_case(INT, shape, rng.choice(INT_OPS), rng.choice(['v', 'neg', 'v+v']), isa, 'self', noalias=False))
-            out.append(mask_case(INT, shape, rng.choice(INT_OPS), rng.choice(['v', 'neg', 'v+v']), isa, 'whole', noalias=False))
+            if T: out.append(mask_case(ftype(), shape, rng.choice(ALL_OPS), 'v', isa, 'it'))
+            out.append(mask_case(INT, shape, rng.choice(INT_OPS), rng.choice(['v', 'v+v']), isa, 'self', noalias=False))
+            out.append(mask_case(INT, shape, rng.choice(INT_OPS), rng.choice(['v', 'v+v']), isa, 'whole', noalias=False))
             out.append(mask_case(INT, shape, rng.choice(INT_OPS), 'v', isa, 'whole', noalias=True))
+            ty = ftype()
+            out.append(mask_case(ty, shape, rng.choice(ALL_OPS), rhs1(ty), isa, 'whole', noalias=bool(rng.getrandbits(1))))
     seen = set(); res = []
     for c in out:
         if c.cid not in seen: seen.add(c.cid); res.append(c)
